@@ -68,9 +68,9 @@ def payload(rnd, kind, n):
         return bytes((i * 7 + 1) & 255 for i in range(n))
     if kind == "bits":
         return bytes([0x01, 0x80, 0x02, 0x40, 0x55, 0xAA, 0x0F, 0xF0][i % 8] for i in range(n))
-    if kind.startswith("sum"):                      # byte sum = k * 65535
+    if kind.startswith("sum") or kind.startswith("tot"):      # byte sum = k * 65535, or exactly the given total
         k = int(kind[3:])
-        target = k * 65535
+        target = k * 65535 if kind.startswith("sum") else k
         if not (0 < target <= 255 * n):
             return bytes(rnd.randrange(256) for _ in range(n))
         b = [rnd.randrange(256) for _ in range(n)]
@@ -127,6 +127,11 @@ def direct_cases(run):
     add("t", 300, "sum1")
     add("t", 258, "ff", name=b"CARRY")              # sum 65790 > 65535: one end-around carry (distinguishes % 65536)
     add("n", 520, "rand")
+    # byte sums whose two 16-bit halves add up to a second carry: 0x1ffff, 0x2fffe, 0x2ffff (a checksum that folds the carry
+    # only once is one too small there although it is right for every multiple of 65535)
+    add("n", 515, "tot131071", name=b"FOLD1")
+    add("t", 772, "tot196606", name=b"FOLD2")
+    add("n", 771 + 2, "tot196607")
     add("n", 600 if thorough else 300, "sum1")
     if thorough:
         add("n", 514, "ff")
@@ -273,6 +278,59 @@ def e2e_cases(run):
     for i, (cmd, base, nm, n, kind) in enumerate(specs):
         out.append({"i": i, "cmd": cmd, "base": base, "name": nm, "img": payload(rnd, kind, n)})
     return out
+
+
+def run_multi(case):
+    """One program with several output directives of the same kind (each file must carry ITS tape name), or two source
+    files with --implicit-bin (the implicit output is named after the FIRST source)."""
+    root = tempfile.mkdtemp(prefix="c13m-", dir=tmp_root())
+    try:
+        img = case["img"]
+        lines = [f".link {case['base']:o}"]
+        for i in range(0, len(img), 16):
+            lines.append(".byte " + ", ".join(f"{b:o}" for b in img[i:i + 16]))
+        for cmd, rel, name in case["directives"]:
+            lines.append(f'{cmd} "{rel}"' + (f', "{name}"' if name is not None else ""))
+        text = "\n".join(lines) + "\n"
+        second = case.get("second")
+        srcs = [("main.mac", text)] + ([("data.mac", second)] if second else [])
+        r0 = asm(srcs, timeout=30)
+        if r0["outcome"] != "ok":
+            return {"machinery": f"multi source does not assemble: {r0['outcome']} {r0['exc']} {[x[1] for x in r0['reports']]}", "src": text}
+        for n, t in srcs:
+            Path(root, n).write_text(t, encoding="utf-8")
+        r = run_cli(case.get("args", []) + [n for n, _ in srcs], root)
+        problems, records = [], []
+        want = {rel: (cmd, name) for cmd, rel, name in case["directives"]}
+        if case.get("implicit"):
+            want[case["implicit"]] = ("implicit-bin", None)
+        if r["rc"] != 0 or r["hang"]:
+            problems.append((f"CLI run failed (rc={r['rc']})", {"stderr": r["err"][-600:]}))
+        if sorted(r["changed"]) != sorted(want):
+            problems.append((f"files written {sorted(r['changed'])}, expected {sorted(want)}", {"stderr": r["err"][-600:]}))
+        for rel, (cmd, name) in want.items():
+            if rel not in r["changed"]:
+                continue
+            fmt = {"make_wav": "n", "make_turbo_wav": "t", "make_bin": "bin", "implicit-bin": "bin", "make_raw": "raw"}[cmd]
+            nm = b"" if fmt in ("bin", "raw") else (name.encode("ascii") if name is not None else rel.rsplit("/", 1)[-1].rsplit(".wav", 1)[0].encode("ascii"))
+            x = file_record(fmt, r0["base"], nm, r0["code"], r["changed"][rel])
+            x["tag"] = f"multi {case['i']}: {cmd} {rel} name={name!r}"
+            records.append(x)
+        return {"records": records, "problems": problems, "src": text}
+    finally:
+        rmtree(root)
+
+
+def multi_cases(run):
+    rnd = random.Random(3000 + run.seed)
+    return [
+        {"i": 0, "base": 0o1000, "img": payload(rnd, "rand", 9), "directives": [("make_wav", "first.wav", "ALPHA"), ("make_wav", "second.wav", "BETA")]},
+        {"i": 1, "base": 0o2000, "img": payload(rnd, "rand", 5), "directives": [("make_turbo_wav", "t1.wav", "GAMMA"), ("make_turbo_wav", "t2.wav", None),
+                                                                               ("make_wav", "n3.wav", "DELTA")]},
+        {"i": 2, "base": 0o1000, "img": payload(rnd, "rand", 4), "directives": [("make_bin", "a.bin", None), ("make_bin", "b.bin", None), ("make_raw", "c.raw", None)]},
+        {"i": 3, "base": 0o1000, "img": payload(rnd, "rand", 6), "directives": [], "second": "\t.byte 1, 2\n", "args": ["--implicit-bin"], "implicit": "main.bin"},
+        {"i": 4, "base": 0o1000, "img": payload(rnd, "rand", 4), "directives": [], "second": "\t.word 5\n", "args": ["-o", "both.bin"], "implicit": "both.bin"},
+    ]
 
 
 def run_e2e(case):
@@ -442,7 +500,9 @@ def main(run):
     # ---- run the real code: scenarios, end-to-end tapes, direct file_formats calls
     scen_res = pmap(run_scenario, tasks)
     e2e = e2e_cases(run)
-    e2e_res = pmap(run_e2e, e2e)
+    multi = multi_cases(run)
+    e2e_res = pmap(run_e2e, e2e) + pmap(run_multi, multi)
+    e2e = e2e + [dict(m, cmd="multi:" + "+".join(d[0] for d in m["directives"]) + (" " + " ".join(m.get("args", [])) if m.get("args") else ""), name=None) for m in multi]
     direct = direct_cases(run)
     for i, c in enumerate(direct):
         c["also_bin"] = i % 4 == 0 or len(c["img"]) <= 2
